@@ -8,7 +8,7 @@ from .. import gen, rig
 
 PROP = "C01"
 LEVEL = "exploration"
-SHARDS = {"quick": 4, "thorough": 16}
+SHARDS = {"quick": 8, "thorough": 16}
 TIME_CAP = {"quick": 50, "thorough": 600}
 N_CASES = {"quick": 700, "thorough": 40000}
 RULE = (
